@@ -13,6 +13,9 @@ Record ecase := mk_ecase {
                                           length of the tail; None = error *)
 }.
 
+(* n copies of a short list: large element counts are printed as [lrep 65536 [x]] *)
+Definition lrep {A} (n : N) (l : list A) : list A := N.iter n (fun acc => l ++ acc) [].
+
 (* ---- decidable equality (maps up to the order of their entries) -------------------------------- *)
 Definition prim_eqb (a b : prim) : bool := tag_of a =? tag_of b.
 
